@@ -272,7 +272,7 @@ func (b *TB) build(v ssa.Value) *Term {
 			if fv, ok := v.X.(*ssa.FreeVar); ok {
 				// a captured variable of an inlined closure: the cell of the creating function
 				if t, bound := b.fvbind[fv]; bound && t.Op == "alloc" {
-					if a, isA := t.V.(*ssa.Alloc); isA {
+					if a, isA := t.V.(*ssa.Alloc); isA && cellStableForClosures(a) {
 						return b.cellValue(a)
 					}
 				}
@@ -777,4 +777,37 @@ func foldUn(op string, x constant.Value) (v constant.Value, ok bool) {
 		return constant.UnaryOp(token.XOR, x, 0), true
 	}
 	return nil, false
+}
+
+
+// cellStableForClosures: what a closure reads from the captured cell when it runs is what the cell held when the
+// closure was made — true when no store to the cell sits in a loop that the cell's own allocation is outside of (a
+// variable declared before a loop and reassigned in every round has moved on by the time a closure made in an earlier
+// round runs; a per-round variable has not).
+func cellStableForClosures(a *ssa.Alloc) bool {
+	fn := a.Parent()
+	if fn == nil {
+		return false
+	}
+	var headers []*ssa.BasicBlock
+	for _, b := range fn.Blocks {
+		for _, p := range b.Preds {
+			if b.Dominates(p) {
+				headers = append(headers, b)
+				break
+			}
+		}
+	}
+	for _, st := range storesTo(a) {
+		if st.Parent() != fn {
+			continue // a store made by a closure: not a matter of loop rounds of the creator
+		}
+		for _, h := range headers {
+			inLoop := func(b *ssa.BasicBlock) bool { return b == h || inNaturalLoop(h, b) }
+			if inLoop(st.Block()) && !inLoop(a.Block()) {
+				return false
+			}
+		}
+	}
+	return true
 }
